@@ -21,7 +21,6 @@ def mkcase(kinds, start, start_kind="abs", cwd=0, name="tasks", distractor=True,
 class C20(Prop):
     id = "C20"
     corr_module = "Corr.C20Corr"
-    preds = ("corr", "spec", "obs_consistent")
     quick_n = 1200
     thorough_n = 4000
     shard_size = 300
